@@ -195,8 +195,7 @@ func (e *SpecEnv) eval(x Expr, cur, old *State) Val {
 			if len(lay) != 1 {
 				return e.fail("binder %s of non-scalar type %s", b.Name, b.Type)
 			}
-			e.qn++
-			q := Term{sym(fmt.Sprintf("%s!%d", b.Name, e.qn)), lay[0].Sort}
+			q := Term{sym(fmt.Sprintf("%s!%d", b.Name, e.qn+1)), lay[0].Sort}
 			if old, ok := e.bound[b.Name]; ok {
 				saved[b.Name] = old
 			}
@@ -207,7 +206,9 @@ func (e *SpecEnv) eval(x Expr, cur, old *State) Val {
 			vars = append(vars, q)
 			_ = guards
 		}
+		e.qn++
 		body := e.eval(n.Body, cur, old).one()
+		e.qn--
 		for _, b := range n.Vars {
 			if o, ok := saved[b.Name]; ok {
 				e.bound[b.Name] = o
@@ -461,7 +462,21 @@ func (e *SpecEnv) callExpr(n *ECall, cur, old *State) Val {
 				return scalar(intT, v.len())
 			case *types.Map:
 				_, size, _ := e.f.mapComps(v.T)
-				return scalar(intT, Select(vc.get(cur, size), v.one()))
+				sz := Select(vc.get(cur, size), v.one())
+				vc.fact(Ge(sz, Zero)) // memory-model truth: sizes are never negative
+				// size and domain agree: a key in the domain means size >= 1; size >= 1 has a witness
+				mt := v.T.Underlying().(*types.Map)
+				dom, _, _ := e.f.mapComps(v.T)
+				d := Select(vc.get(cur, dom), v.one())
+				kq := Term{"k!q", keySort(mt.Key())}
+				key := "mapsize|" + d.S
+				if !vc.declared[key] {
+					vc.declared[key] = true
+					vc.fact(Forall([]Term{kq}, Imp(Select(d, kq), Ge(sz, One)), []Term{Select(d, kq)}))
+					w := vc.fresh("witness", keySort(mt.Key()))
+					vc.fact(Imp(Ge(sz, One), Select(d, w)))
+				}
+				return scalar(intT, sz)
 			case *types.Basic:
 				return scalar(intT, mk(SInt, "str.len", v.one()))
 			}
@@ -513,6 +528,106 @@ func (e *SpecEnv) callExpr(n *ECall, cur, old *State) Val {
 				return e.fail("fieldset: no scalar field %s on elements of %s", fid.Name, v.T)
 			}
 			return Val{Set: fs, T: types.Typ[types.Bool], L: []Term{t}}
+		case "imageset", "imagesetn":
+			v := e.eval(n.Args[0], cur, old)
+			mid, ok := n.Args[1].(*EIdent)
+			if _, isSl := v.T.Underlying().(*types.Slice); !isSl || !ok {
+				return e.fail("imageset(slice, method)")
+			}
+			cnt := v.len()
+			if id.Name == "imagesetn" {
+				cnt = e.eval(n.Args[2], cur, old).one()
+			}
+			t, rs, ok := e.f.imageSet(cur, v, mid.Name, cnt)
+			if !ok {
+				return e.fail("imageset: %s is not a pure method of the elements of %s", mid.Name, v.T)
+			}
+			return Val{Set: rs, T: types.Typ[types.Bool], L: []Term{t}}
+		case "sameElems", "rebuildsElems", "sameImages", "rebuildsImages":
+			// set-level comparisons of slices (element sets, or image sets under a pure method)
+			img := strings.HasSuffix(id.Name, "Images")
+			nsl := 2
+			if strings.HasPrefix(id.Name, "rebuilds") {
+				nsl = 4
+			}
+			if len(n.Args) != nsl+map[bool]int{true: 1, false: 0}[img] {
+				return e.fail("%s: wrong number of arguments", id.Name)
+			}
+			var sets []Term
+			var es *Sort
+			for i := 0; i < nsl; i++ {
+				v := e.eval(n.Args[i], cur, old)
+				if _, ok := v.T.Underlying().(*types.Slice); !ok {
+					return e.fail("%s: argument %d is not a slice", id.Name, i)
+				}
+				var t Term
+				var s *Sort
+				var ok bool
+				if img {
+					mid, isId := n.Args[nsl].(*EIdent)
+					if !isId {
+						return e.fail("%s: method name expected", id.Name)
+					}
+					t, s, ok = e.f.imageSet(cur, v, mid.Name, v.len())
+				} else {
+					t, s, ok = e.f.elemSet(cur, v, v.len())
+				}
+				if !ok {
+					return e.fail("%s: no set view for %s", id.Name, v.T)
+				}
+				sets = append(sets, t)
+				es = s
+			}
+			x := Term{sym(fmt.Sprintf("x!s%d", e.qn+1)), es}
+			in := func(i int) Term { return Select(sets[i], x) }
+			var body Term
+			if nsl == 2 {
+				body = Eq(in(0), in(1))
+			} else {
+				// (n, added, removed, n2): n2 == (n \ removed) + added
+				body = Eq(in(3), Or(And(in(0), Not(in(2))), in(1)))
+			}
+			var pats [][]Term
+			for i := range sets {
+				pats = append(pats, []Term{in(i)})
+			}
+			return scalar(boolT, Forall([]Term{x}, body, pats...))
+		case "sameMap", "rebuildsMap":
+			nm := 2
+			if id.Name == "rebuildsMap" {
+				nm = 4
+			}
+			if len(n.Args) != nm {
+				return e.fail("%s: wrong number of arguments", id.Name)
+			}
+			var ms []Val
+			for i := 0; i < nm; i++ {
+				v := e.eval(n.Args[i], cur, old)
+				if _, ok := v.T.Underlying().(*types.Map); !ok {
+					return e.fail("%s: argument %d is not a map", id.Name, i)
+				}
+				ms = append(ms, v)
+			}
+			mt := ms[0].T.Underlying().(*types.Map)
+			dom, _, vals := e.f.mapComps(ms[0].T)
+			k := Term{sym(fmt.Sprintf("k!s%d", e.qn+1)), keySort(mt.Key())}
+			in := func(i int) Term { return Select(Select(vc.get(cur, dom), ms[i].one()), k) }
+			val := func(i int) Term { return Select(Select(vc.get(cur, vals[0]), ms[i].one()), k) }
+			if len(vals) != 1 {
+				return e.fail("%s: map values must be scalar", id.Name)
+			}
+			var body Term
+			if nm == 2 {
+				body = And(Eq(in(0), in(1)), Imp(in(0), Eq(val(0), val(1))))
+			} else {
+				// (n, added, removed, n2)
+				body = And(Eq(in(3), Or(And(in(0), Not(in(2))), in(1))), Imp(in(3), Eq(val(3), Ite(in(1), val(1), val(0)))))
+			}
+			var pats [][]Term
+			for i := range ms {
+				pats = append(pats, []Term{in(i)})
+			}
+			return scalar(boolT, Forall([]Term{k}, body, pats...))
 		case "keys":
 			v := e.eval(n.Args[0], cur, old)
 			mt, ok := v.T.Underlying().(*types.Map)
@@ -602,7 +717,7 @@ func (e *SpecEnv) predCall(p *PredSpec, args []Expr, cur, old *State) Val {
 	if len(args) != len(p.Params) {
 		return e.fail("predicate %s expects %d arguments", p.Name, len(p.Params))
 	}
-	sub := &SpecEnv{f: e.f, fn: e.fn, spec: e.spec, pkg: e.f.vc.eng.typesPkgByName(p.Pkg), params: map[string]Val{}, pre: e.pre, qn: e.qn + 100}
+	sub := &SpecEnv{f: e.f, fn: e.fn, spec: e.spec, pkg: e.f.vc.eng.typesPkgByName(p.Pkg), params: map[string]Val{}, pre: e.pre, qn: e.qn}
 	for i, b := range p.Params {
 		v := e.eval(args[i], cur, old)
 		if t := sub.resolveType(b.Type); t != nil {
@@ -613,7 +728,6 @@ func (e *SpecEnv) predCall(p *PredSpec, args []Expr, cur, old *State) Val {
 		sub.params[b.Name] = v
 	}
 	out := sub.eval(p.Body, cur, old)
-	e.qn = sub.qn
 	return out
 }
 
